@@ -195,6 +195,7 @@ struct Hist {
     /// C11: differences (label=hash of restored value) already present after the previous request
     c11_known: BTreeSet<String>,
     c11_ext_known: BTreeSet<String>,
+    c11_bk_known: BTreeSet<String>,
     c11_probe_known: u64,
     c11_ext_conflicts: usize,
     /// node-level histories (C10, C11): one payment hash used by every channel, approved once for one part
@@ -291,7 +292,7 @@ impl Hist {
         cfg.backup = backup;
         cfg.policy.max_invoices = 100_000;
         let world = World::new(cfg);
-        Hist { world, chans: vec![], log: vec![], next_dbid: 1, fresh_tag: (shard as u64) << 40 | index << 20, keysend_tag: 0, secp: Secp256k1::new(), shard, index, c11_known: BTreeSet::new(), c11_ext_known: BTreeSet::new(), c11_probe_known: 0, c11_ext_conflicts: 0, shared_hash_enabled: false, shared_registered: false }
+        Hist { world, chans: vec![], log: vec![], next_dbid: 1, fresh_tag: (shard as u64) << 40 | index << 20, keysend_tag: 0, secp: Secp256k1::new(), shard, index, c11_known: BTreeSet::new(), c11_ext_known: BTreeSet::new(), c11_bk_known: BTreeSet::new(), c11_probe_known: 0, c11_ext_conflicts: 0, shared_hash_enabled: false, shared_registered: false }
     }
 
     fn height(&self) -> u32 {
@@ -1518,6 +1519,9 @@ fn c11_check(h: &mut Hist, r: &mut Report, cli: &Cli, op: &Op, out: &Outcome) {
     if h.world.store.is_cloud() {
         c11_external(h, &live, now, r, cli, op);
     }
+    if h.world.store.is_backup() {
+        c11_backup(h, &live, now, r, cli, op);
+    }
     if !relevant.is_empty() {
         let labels: Vec<String> = relevant.iter().map(|x| {
             let k = &x.0;
@@ -1591,6 +1595,47 @@ fn c11_probe(h: &mut Hist, shadow: &Arc<Node>, r: &mut Report, cli: &Cli, op: &O
         }
     } else {
         h.c11_probe_known = 0;
+    }
+}
+
+/// Main + backup composite store: what the BACKUP store holds alone must restore the same signer (the main store
+/// is lost - the case the backup exists for).  The composite writes main first and backup second and fails the
+/// request when either write fails, so at the moment a request is acknowledged both hold what it changed.
+fn c11_backup(h: &mut Hist, live: &snapshot::Snapshot, now: u64, r: &mut Report, cli: &Cli, op: &Op) {
+    let shadow = match report::catch(|| h.world.crash_copy_backup()) {
+        Ok(Ok((_s, node))) => node,
+        Ok(Err(e)) => {
+            r.violation("c11:backup-store-not-restorable-after-request", witness(h, cli, json!({"op": format!("{:?}", op), "error": e})));
+            return;
+        }
+        Err(p) => {
+            r.violation("c11:backup-restore-panicked-after-request", witness(h, cli, json!({"op": format!("{:?}", op), "panic": p})));
+            return;
+        }
+    };
+    r.count("c11.crash_points_restored_from_backup_store_alone");
+    let rest = snapshot::take_memory(&shadow, now, false);
+    let mut relevant = vec![];
+    let mut current: BTreeSet<String> = BTreeSet::new();
+    for (k, a, b) in snapshot::diff(live, &rest) {
+        let listed = k.starts_with("chan.") || k.starts_with("tracker.") || k == "node.allowlist" || k == "node.invoices" || k == "node.dbid_high_water_mark";
+        if !listed {
+            continue;
+        }
+        let key = format!("{}={}", k, fnv_str(&b));
+        current.insert(key.clone());
+        if !h.c11_bk_known.contains(&key) {
+            relevant.push((k, a, b));
+        }
+    }
+    h.c11_bk_known = current;
+    if !relevant.is_empty() {
+        let labels: Vec<String> = relevant.iter().map(|x| {
+            let k = &x.0;
+            if k.starts_with("chan.") { format!("chan.{}", k.rsplit('.').next().unwrap_or("")) } else if k.starts_with("tracker.listener.") { "tracker.listener".into() } else { k.clone() }
+        }).collect::<BTreeSet<_>>().into_iter().collect();
+        let sig = format!("c11:not-durable-in-backup-store:{}:{}", op_kind(op), labels.join("+"));
+        r.violation(&sig, witness(h, cli, json!({"op": format!("{:?}", op), "differences(running vs restored from the backup store alone)": snapshot::brief(&relevant)})));
     }
 }
 
@@ -1688,6 +1733,9 @@ fn run_history(rng: &mut Rng, r: &mut Report, cli: &Cli, prop: Prop, shard: usiz
     let fault_len = 1 + rng.below(2);
     // some requests write twice (old-protocol validate = validate + revoke, channel setup = channel + tracker)
     let fault_skip = if rng.chance(1, 4) { 1 } else { 0 };
+    // composite store: in half of the histories it is the backup store that is unavailable (the main write of the
+    // same request went through)
+    let fault_on_backup = backup && rng.bool();
     let mut retry: Option<Op> = None;
     let mut restart_in: Option<u64> = None;
     if fault_from.is_some() {
@@ -1745,13 +1793,20 @@ fn run_history(rng: &mut Rng, r: &mut Report, cli: &Cli, prop: Prop, shard: usiz
         }
         let before = if prop == Prop::C10 { Some(snapshot::take(&h.world)) } else { None };
         if arm {
-            h.world.store.arm_faults(fault_skip, fault_len);
+            if fault_on_backup {
+                h.world.store.arm_backup_faults(fault_len);
+            } else {
+                h.world.store.arm_faults(fault_skip, fault_len);
+            }
         }
         // (what the previous request prepared must not be taken for this one's when the harness cannot even
         // build the request)
         h.world.last_mutations.lock().unwrap().clear();
         let mut out = h.exec(rng, &op);
-        let fired = if arm { h.world.store.disarm_faults() } else { 0 };
+        let fired = if !arm { 0 } else if fault_on_backup { h.world.store.disarm_backup_faults() } else { h.world.store.disarm_faults() };
+        if fired > 0 && fault_on_backup {
+            r.count("storage_fault.episodes_on_the_backup_store");
+        }
         r.eval(1);
         let kind = op_kind(&op);
         if fired > 0 {
@@ -1993,13 +2048,15 @@ fn main() {
         }
         Prop::C11 => {
             report.require("c11.crash_points", 1000);
+            report.require("c11.crash_points_restored_from_backup_store_alone", 500);
+            report.require("storage_fault.episodes_on_the_backup_store", 3);
         }
         Prop::C18 => {
             report.require("keyfn.reply_values_checked", 2000);
         }
     }
     let (level, rule) = match prop {
-        Prop::C11 => ("fault_enumeration", "every step of every generated request history is a crash point: after each request a second signer is restored from a deep copy of the store and compared label by label (per-channel EnforcementState, setup, ids; tracker tip/height/headers/listener monitor states; allowlist; approved invoices; dbid high-water mark) with the running one. distinct = (request kind, api, outcome tag)"),
+        Prop::C11 => ("fault_enumeration", "every step of every generated request history is a crash point: after each request a second signer is restored from a deep copy of the store and compared label by label (per-channel EnforcementState, setup, ids; tracker tip/height/headers/listener monitor states; allowlist; approved invoices; dbid high-water mark) with the running one; on the cloud-staged store a third signer is restored from the reported mutations alone, on the main + backup composite store a third signer is restored from the backup store alone (storage-fault episodes hit the main or the backup store). distinct = (request kind, api, outcome tag)"),
         Prop::C18 => ("exploration", "the C01 request histories (validate/revoke/get-point/get-secret incl. stale retries and extremes, protocol versions 4/5/6 and the direct API, restarts, storage-fault episodes): every per-commitment secret and point in a reply (revoke and old-protocol validate replies: secret n-1 and point n+1; get-point: point n and, before protocol 6, secret n-2; get-secret: secret n) must be the harness's own derivation from (seed, channel id) at the commitment number the reply stands for. distinct = (reply field, channel ready?, restarts so far)"),
         Prop::C10 => ("exploration", "request histories (valid and invalid requests at handler protocol versions 4/5/6 and direct API, node-level requests, restarts; every third history on the cloud-staged store in the daemon's enter/prepare/commit cycle); a full snapshot (all channels' EnforcementState, node state entry with payments and allowlist, tracker entry, store dump) is taken before every request and compared after every refused one. distinct = (request kind, api, error tag)"),
         _ => ("exploration", "seeded request histories on 1-2 channels: validate/revoke/activate/get-point/get-secret/sign (phase2, recovery, redundant)/sign-counterparty/validate-revocation/mutual-close/restart through ChannelHandler at protocol versions 4, 5, 6 and the direct Channel API, commitment numbers drawn relative to the live counters plus extremes, valid and six kinds of invalid counterparty signatures, right/wrong/stale secrets and points. Ghost state is updated only from replies; disclosed secrets are attributed to commitment numbers by an independent BOLT-3 derivation from the node seed. distinct = (request kind, api, outcome tag) plus monitor-specific (disclosure/sign/revocation situation) tuples"),
